@@ -189,6 +189,9 @@ func ruleBPrim(w *World, r *Report) {
 	}
 	sort.Strings(names)
 	for _, name := range names {
+		if !w.relevantName(name) {
+			continue
+		}
 		spec := table[name]
 		fs := binds[name]
 		if len(fs) == 0 {
@@ -641,7 +644,15 @@ func (w *World) argIndexOf(fn *ssa.Function, v ssa.Value, seen map[ssa.Value]boo
 		if f := x.Call.StaticCallee(); f != nil {
 			if g, err := w.grammar(); err == nil && f == g.NewAxis {
 				if ax, _ := constString(x.Call.Args[0]); ax == "self" {
-					return []int{-1}
+					// the context step must be self::node(): any-node type test, no name
+					all, okAll := w.allNodeConst()
+					tt, okT := constInt(x.Call.Args[1])
+					n1, _ := constString(x.Call.Args[2])
+					n2, _ := constString(x.Call.Args[3])
+					if okAll && okT && tt == all && n1 == "" && n2 == "" {
+						return []int{-1}
+					}
+					return []int{-5}
 				}
 			}
 		}
@@ -698,6 +709,9 @@ func ruleBArgs(w *World, r *Report) {
 		if _, ok := f.Signature.Results().At(0).Type().Underlying().(*types.Signature); !ok {
 			return
 		}
+		if w.irrelevantFn(f) {
+			return
+		}
 		qi := 0
 		for i, a := range c.Call.Args {
 			pt := f.Signature.Params().At(min(i, f.Signature.Params().Len()-1)).Type()
@@ -734,15 +748,32 @@ func ruleBArgs(w *World, r *Report) {
 			} else if okAll {
 				r.ok("B-ARITY", key, w.instrPos(c), "required arguments cannot be omitted (arity test or index fault inside the recover)")
 			}
-			if okAll {
+			if w.curProp == "C17" {
+				// C17 is about rejecting damaged expressions: only the arity half applies
+				if !okAll {
+					wired := true
+					for _, j := range idx {
+						if j == -3 {
+							wired = false
+						}
+					}
+					if !wired {
+						r.undec("B-ARITY", key, w.instrPos(c), "argument source not understood")
+					}
+				}
+			} else if okAll {
 				r.ok("B-ARGS", key, w.instrPos(c), fmt.Sprintf("built from argument expression %s", describeIdx(idx)))
 			} else {
-				r.bad("B-ARGS", key, w.instrPos(c), fmt.Sprintf("parameter %d of %s receives the query built from %s: arguments are wired in the wrong order", qi+1, f.Name(), describeIdx(idx)))
+				r.bad("B-ARGS", key, w.instrPos(c), fmt.Sprintf("parameter %d of %s receives the query built from %s: not the argument XPath prescribes for that position", qi+1, f.Name(), describeIdx(idx)))
 			}
 			qi++
 		}
 	})
-	if n < 20 {
+	need := 20
+	if _, filtered := propFuncs[w.curProp]; filtered {
+		need = 1 // only the factories of the functions this property covers are examined
+	}
+	if n < need {
 		r.bad("B-ARGS", "sites", "", fmt.Sprintf("only %d factory arguments examined", n))
 	}
 }
@@ -779,6 +810,8 @@ func describeIdx(idx []int) string {
 			p = append(p, "an unknown source")
 		case -4:
 			p = append(p, "all arguments in order")
+		case -5:
+			p = append(p, "a synthesised self step that is not self::node() (it drops context nodes that are not elements)")
 		default:
 			p = append(p, fmt.Sprintf("#%d", j+1))
 		}
